@@ -1,5 +1,5 @@
 SPECIFICATION Spec
-INVARIANT IndexConsistent PublishedOnly CommittedSurvive
+INVARIANT IndexConsistent PublishedOnly CommittedSurvive CommittedOnDisk
 PROPERTY CrashKeepsCommit EvictOnlyExpired
 VIEW MCView
 CHECK_DEADLOCK FALSE
